@@ -292,7 +292,8 @@ class Ctx:
         pid = self.pid
         bad = forbidden_scan()
         self.oblige("no_axioms_no_admits_scan", not bad, "; ".join(bad[:5]))
-        targets = ["Props/%s.vo" % pid] + list(extra_targets)
+        models = [f[:-2] + ".vo" for f in _vfiles() if f.startswith("Model/") or f.startswith("Lib/")]
+        targets = ["Props/%s.vo" % pid] + models + list(extra_targets)
         ok, log = coq_make(targets, timeout=timeout)
         names = prop_theorems(pid)
         built = vo_exists("Props/%s.vo" % pid) and ok
@@ -325,7 +326,9 @@ class Ctx:
         for k, (n, rc, out) in enumerate(outs):
             cnt = min(shard, len(exprs) - k * shard)
             if rc != 0:
-                self.extra.setdefault("coq_errors", []).append(_first_error(out))
+                errs = self.extra.setdefault("coq_errors", [])
+                if len(errs) < 3:
+                    errs.append(_first_error(out))
                 res.extend([None] * cnt)
                 continue
             vals = eval_results(out)
